@@ -485,6 +485,15 @@ func (en *DefaultEngine) init(ctx context.Context, input []byte) (bool, error) {
 	}
 
 	if len(en.st.Code) == 0 {
+		if en.st.Depth() > -1 && !en.st.MatchFlag(state.FLAG_TERMINATE, true) {
+			// a session with a position but nothing left to run, and not blocked: client code has
+			// cleared TERMINATE. It starts over; entering the entry node on top of the old position
+			// would stack it (or, at the entry node itself, crash)
+			_, err = en.reset(ctx)
+			if err != nil {
+				return false, err
+			}
+		}
 		b := vm.NewLine(nil, vm.MOVE, []string{sym}, nil, nil)
 		cont, err = en.setCode(ctx, b)
 		if err != nil {
